@@ -25,9 +25,11 @@ theorem clean_elements_allowed (L : Lists) (c : Cfg) (roots : List Node) :
     AllElemsL (fun _ n _ => elemOk L c n = true) 0 (clean L c roots) :=
   cleanList_all L c _ (fun _ _ n as _ h => elemOk_of_none L c n as _ h) roots 0 0 (Nat.le_refl 0)
 
-/-- On every element of the output, every attribute is allowed for that element. -/
+/-- On every element of the output, every attribute is allowed for that element: its name is
+not removed and is on the element's allow list if there is one — and then it is an HTML attribute
+(no namespace), so that a parser reading the serialized output sees the same name. -/
 theorem clean_attrs_allowed (L : Lists) (c : Cfg) (roots : List Node) :
-    AllElemsL (fun _ n as => ∀ a ∈ as, attrOk L c n a.name = true) 0 (clean L c roots) :=
+    AllElemsL (fun _ n as => ∀ a ∈ as, attrOkA L c n a) 0 (clean L c roots) :=
   cleanList_all L c _
     (fun _ _ n as _ _ a ha => ((attrGood_iff L c n a).1 (cleanAttrs_good L c n as a ha)).1)
     roots 0 0 (Nat.le_refl 0)
@@ -50,8 +52,8 @@ configurations, see `plain_class_unrestricted`.) -/
 example :
     let c : Cfg := { allowSchemes := some ⟨false, [(bs "p", [(className, [bs "a"])])]⟩,
                      removeClasses := some [(bs "p", [bs "a:*"])] }
-    clean Spec.HtmlAllow.lists c [.elem (bs "p") [⟨bs "0", className, bs "a:x b"⟩] []]
-      = [.elem (bs "p") [⟨bs "0", className, bs "b"⟩] []] := by decide +kernel
+    clean Spec.HtmlAllow.lists c [.elem (bs "p") [⟨none, [], className, bs "a:x b"⟩] []]
+      = [.elem (bs "p") [⟨none, [], className, bs "b"⟩] []] := by decide +kernel
 
 /-- Every class left in a `class` attribute of the output is allowed for its element. -/
 theorem clean_classes_allowed (L : Lists) (c : Cfg) (roots : List Node) :
@@ -168,14 +170,15 @@ theorem plain_class_unrestricted (m : Mode) (rrf : Bool) (el v : Str) :
 
 /-- The property, in the spec's words, for `sanitize_html(_, mode, reply_fallback)`: every element
 of the output is on the spec's list (and is not `mx-reply` under reply-fallback removal), every
-attribute is in the element's row, every attribute value satisfies the spec's scheme restriction
+attribute is an HTML attribute (no namespace) in the element's row, every attribute value satisfies the spec's scheme restriction
 whatever other attributes accompany it, every class on `code` matches `language-*`; there are no
 comments; nesting is at most 100; the text outside dropped subtrees is kept in order. -/
 theorem standard_output_spec (m : Mode) (rrf : Bool) (roots : List Node) :
     let out := clean lists (plain (some m) rrf) roots
     AllElemsL (fun _ n as =>
         elemAllowed n = true ∧ (rrf = true → n ≠ replyName) ∧
-        ∀ a ∈ as, attrAllowed n a.name = true ∧ valueAllowed m n a.name a.value = true ∧
+        ∀ a ∈ as, a.ns = [] ∧ attrAllowed n a.name = true ∧
+          valueAllowed m n a.name a.value = true ∧
           (a.name = className → ∀ cl ∈ splitWs a.value, classAllowed n cl = true)) 0 out ∧
     NoOtherL out ∧ depthOfL out ≤ 100 ∧
     textOfL out = keptTextL lists (plain (some m) rrf) 0 roots := by
@@ -193,7 +196,8 @@ theorem standard_output_spec (m : Mode) (rrf : Bool) (roots : List Node) :
     · simp [hn] at h
   · intro a ha
     have hg := (attrGood_iff _ _ n a).1 (cleanAttrs_good _ _ n as a ha)
-    refine ⟨by rw [← plain_attrOk_spec m rrf]; exact hg.1, ?_, ?_⟩
+    refine ⟨hg.1.2 (by simp [attrListed, plain, Cfg.useStrict]),
+      by rw [← plain_attrOk_spec m rrf]; exact hg.1.1, ?_, ?_⟩
     · rw [← plain_valueOk_spec m rrf]
       by_cases hc : a.name = className
       · rw [hc]; exact plain_class_unrestricted m rrf n a.value
@@ -204,11 +208,11 @@ theorem standard_output_spec (m : Mode) (rrf : Bool) (roots : List Node) :
 /-- The F3 witnesses on the model of the repaired code: the link and the image are dropped. -/
 example :
     clean lists (plain (some .strict) false)
-      [.elem (bs "a") [⟨bs "0", className, bs "x"⟩, ⟨bs "0", bs "href", bs "javascript:alert(1)"⟩]
+      [.elem (bs "a") [⟨none, [], className, bs "x"⟩, ⟨none, [], bs "href", bs "javascript:alert(1)"⟩]
         [.text (bs "t")]] = [.text (bs "t")] := by decide +kernel
 example :
     clean lists (plain (some .strict) false)
-      [.elem (bs "img") [⟨bs "0", bs "alt", bs "a"⟩, ⟨bs "0", bs "src", bs "http://x/y"⟩] []] = [] := by
+      [.elem (bs "img") [⟨none, [], bs "alt", bs "a"⟩, ⟨none, [], bs "src", bs "http://x/y"⟩] []] = [] := by
   decide +kernel
 
 end spec
